@@ -78,6 +78,7 @@ fn main() {
                     // every run has its own small aggregator, merged afterwards (the fatal hook needs the shared one)
                     let mut agg = { let g = sh.lock().unwrap(); Agg::new(g.agg.max_samples - g.agg.samples.len().min(g.agg.max_samples)) };
                     let r = if arms::solver_arm_opts(&arm).is_some() { arms::run_solver_arm(&arm, seed, i, &mut agg, &pre) }
+                        else if arm.starts_with("par-preempt-sweep") { arms::run_preempt_sweep(&arm, seed, i, &mut agg, &pre) }
                         else if arm.starts_with("seq-sweep") { arms::run_seq_sweep(&arm, seed, i, &mut agg, None) }
                         else if arm.starts_with("ex-") { ddosim::exgen::run_example_arm(&arm, seed, i, &mut agg, None).unwrap_or_else(|| { eprintln!("unknown example arm {arm}"); std::process::exit(2) }) }
                         else { history::run_history_arm(&arm, seed, i, &mut agg).unwrap_or_else(|| { eprintln!("unknown arm {arm}"); std::process::exit(2) }) };
